@@ -615,6 +615,7 @@ func runC05(c *Ctx) {
 		})
 		c.AddCount("configurations", 1)
 	}
+	c05builtinRegistered(c)
 	redact.VerifResetSafeTypes()
 	c.res.Assumptions = []string{"go1.23.5 fmt (incl. fmt.FormatString) renders the instrumented operands", "domain per the quantifier: verbs valid for their operands; leaves = scalars, strings and values printed through their own method; complex numbers, byte slices under %v/%d and unexported fields are left to C02/C04; %p/%T are asserted on a fixed list of pointer-like operands (declared safe by type, by Safe(), by registration, or not at all) x 44 directives"}
 }
